@@ -79,7 +79,7 @@ func (i instr) enc(w *words) {
 		}
 		w.put(4, fk, i.M, i.R, ht, i.TX, i.Tag)
 	case "only":
-		w.put(6, 1, uint64(i.Band)) // join = 1: the builtin at HEAD (the judge collapses the stage anyway)
+		w.put(6, 0, uint64(i.Band)) // join = 0: since /repo f37fd5c the builtin does not join its helper after reader-gone
 	default:
 		w.put(5, i.Tag)
 	}
@@ -443,9 +443,10 @@ func readsToEnd(p stageProg) bool {
 	return false
 }
 
-// the recorded finding: a band filter that has been told "reader gone" joins its
-// helper goroutine, which only ends when the upstream stage closes — but that
-// stage is blocked on the band the filter no longer reads.
+// the shape of the finding fixed by /repo f37fd5c: a band filter that has been
+// told "reader gone" used to join its helper goroutine, which only ends when the
+// upstream stage closes — and that stage was blocked on the band the filter no
+// longer read.  Still planted and generated; a hang here is a Direct violation.
 const filterClass = "band-filter-joins-drain-before-early-exit"
 
 func inFilterClass(st []stageProg) bool {
@@ -658,20 +659,12 @@ func runOnce(c *reg.Ctx, p pipe, procs, yieldRate int) {
 // hangs counts watchdog hits of generated pipelines; after two the run stops
 // (every further pipeline would cost another watchdog period).
 var hangs int
-var filterRuns int
 
 func runOnceW(c *reg.Ctx, p pipe, procs, yieldRate int, watchdog time.Duration) {
 	if hangs >= 2 {
 		return
 	}
-	if p.Class == filterClass {
-		// known to hang at HEAD: short watchdog, at most 4 such runs per check
-		if filterRuns >= 4 {
-			return
-		}
-		filterRuns++
-		watchdog = 4 * time.Second
-	}
+
 	t0 := time.Now()
 	defer func() { if os.Getenv("C18_TIMING") != "" { fmt.Fprintf(os.Stderr, "T %8.1fms procs=%d rate=%d %s\n", float64(time.Since(t0).Microseconds())/1000, procs, yieldRate, p.Class) } }()
 	y := &yielder{c: c, rate: yieldRate}
@@ -704,9 +697,7 @@ func runOnceW(c *reg.Ctx, p pipe, procs, yieldRate int, watchdog time.Duration) 
 		collect()
 	case <-time.After(watchdog):
 		c.Count("HANG")
-		if p.Class != filterClass {
-			hangs++
-		}
+		hangs++
 		c.Emit(reg.Case{Direct: fmt.Sprintf("pipeline did not finish within %v (deadlock): stages ended so far = ", watchdog) +
 			strings.Join(func() []string { rec.mu.Lock(); defer rec.mu.Unlock(); return append([]string{}, rec.exits...) }(), ","),
 			Desc:  desc{Code: code, GoMaxProcs: procs, YieldRate: yieldRate},
@@ -782,7 +773,7 @@ func run(c *reg.Ctx) {
 			runOnce(c, p, pr, 3)
 		}
 	}
-	// band filters: harmless positions, then the shape of the recorded finding
+	// band filters: harmless positions, then the shape of the fixed finding
 	// (`range 1000 | only-values | nop`)
 	onlyV, onlyB := stageProg{{Op: "only", Band: bandV}}, stageProg{{Op: "only", Band: bandB}}
 	for _, p := range []pipe{
